@@ -21,7 +21,8 @@ fn seq_eq_f(got: &[f64], want: &[f64]) -> Result<(), String> {
 pub fn replay(args: &Args) {
     let cases = read_ndjson(args.req("in"));
     let mut rep = Report::new(args.get("prop").unwrap_or("C19"), args.req("out"));
-    for v in &cases {
+    for v in cases {
+        let v = &v;
         let op = get_str(v, "op");
         match op {
             "range" => range(&mut rep, v),
